@@ -164,6 +164,7 @@ VARIANTS = {
     # rounding tiers (C16): the same generated program with a built-in floating type as scalar
     "fp_float": "-DVERIF_FP=float", "fp_double": "-DVERIF_FP=double", "fp_ldouble": "-DVERIF_FP='long double'",
     "fp_double_O2": "-DVERIF_FP=double -O2", "fp_double_checks": "-DVERIF_FP=double -DBSPLINE_ADD_TEST_CHECKS",
+    "fp_double_eigen": "-DVERIF_FP=double -DVERIF_EIGEN -DVERIF_NO_QUAD",
     "wrapd": "-DVERIF_FP=WrapD -DVERIF_NO_QUAD", "fp_double_noquad": "-DVERIF_FP=double -DVERIF_NO_QUAD",
     "fp_float_O2": "-DVERIF_FP=float -O2", "fp_ldouble_O2": "-DVERIF_FP='long double' -O2",
 }
